@@ -296,6 +296,43 @@ fn c15_completion_session(rep: &mut CaseReport) {
         }
     }
     let _ = s.shutdown();
+    // the same library on disk, listed by `iwe contents`: every link it prints is a destination that leads back to a note
+    // (names with spaces included), and the tool's own files under .iwe are not listed as notes
+    let bin = mon::verif_root().join("harness/target/repo/release/iwe");
+    if bin.exists() {
+        let dir = mon::scratch_dir("c15");
+        for (k, t) in &lib {
+            let p = dir.join(format!("{}.md", k));
+            std::fs::create_dir_all(p.parent().unwrap()).unwrap();
+            std::fs::write(p, t).unwrap();
+        }
+        std::fs::create_dir_all(dir.join(".iwe")).unwrap();
+        std::fs::write(dir.join(".iwe/prompt.md"), "# Tool prompt\n\n## Quoted heading\n").unwrap();
+        if let Ok(o) = std::process::Command::new(&bin).arg("contents").current_dir(&dir).output() {
+            rep.count("events", 1);
+            rep.count("cli_contents_runs", 1);
+            let out = String::from_utf8_lossy(&o.stdout).to_string();
+            let scan = mdscan::scan(&out);
+            let listed: BTreeSet<String> = scan.links.iter().filter(|l| mdscan::is_internal(&l.dest)).filter_map(|l| mdscan::resolve(&l.dest, "")).collect();
+            rep.count("cli_contents_links", listed.len() as u64);
+            for l in &listed {
+                if !lib.contains_key(l) {
+                    rep.violate("contents-link-leads-nowhere", "clean", format!("`iwe contents` prints a link that resolves to `{}`, which is no note of the library", l), json!({"library": lib, "output": out}));
+                    break;
+                }
+            }
+            // what is not a link in the output although it was meant as one: a line "[title](destination)" that the parser
+            // does not read as a link (a destination with a space written bare)
+            let bare = out.lines().filter(|l| l.trim_start().starts_with('[') && l.contains("](")).count();
+            if bare > scan.links.len() {
+                rep.violate("written-url-not-a-destination", "clean", format!("`iwe contents` prints {} lines shaped like links, the parser reads {} links", bare, scan.links.len()), json!({"library": lib, "output": out}));
+            }
+            if out.contains("Tool prompt") || listed.iter().any(|k| k.starts_with(".iwe")) {
+                rep.violate("tool-files-listed-as-notes", "clean", "`iwe contents` lists .iwe/prompt.md as a note".to_string(), json!({"output": out}));
+            }
+        }
+        let _ = std::fs::remove_dir_all(&dir);
+    }
 }
 
 fn c15(_tier: Tier, seed: u64, case: u64) -> CaseReport {
@@ -758,6 +795,28 @@ fn c18(tier: Tier, seed: u64, case: u64) -> CaseReport {
     let mut rep = CaseReport::new(case);
     let mut rng = Rng::for_case(seed, "c18", case);
     let last = tier.pick(1500, 40000) - 1;
+    if case + 5 == last {
+        // matches whose characters lie far apart (the initials of three long headings) score zero or less with the fuzzy
+        // matcher: they still come before entries that do not match at all, and are not pushed out of the first hundred
+        rep.count("events", 2);
+        let mut st: HashMap<String, String> = HashMap::new();
+        st.insert("kb".into(), "# Knowledge base of the platform engineering team\n\n## Management of incidents and the on-call rotation\n\n### Zettelkasten\n".into());
+        st.insert("cooking".into(), "# Cooking\n".into());
+        st.insert("travel".into(), "# Travel\n".into());
+        let small = Database::new(st.clone(), false, MarkdownOptions::default());
+        let first = small.global_search("kmz").first().map(|p| p.search_text.clone()).unwrap_or_default();
+        if !first.contains("Zettelkasten") {
+            rep.violate("search-match-after-non-match", "clean", format!("query `kmz`: the only matching path (… Zettelkasten) is not first; first is `{}`", first), json!({"library": st}));
+        }
+        for i in 0..120 {
+            st.insert(format!("r{}", i), format!("# Recipe {:03}\n", i));
+        }
+        let big = Database::new(st, false, MarkdownOptions::default());
+        if !big.global_search("kmz").iter().any(|p| p.search_text.contains("Zettelkasten")) {
+            rep.violate("search-match-after-non-match", "clean", "query `kmz` with 120 non-matching notes: the only matching path is not among the results".into(), json!({"library": "kb + cooking + travel + 120 recipes"}));
+        }
+        return rep;
+    }
     if case + 4 == last || case + 3 == last {
         // pinned reproducers at the LSP boundary (open findings): document symbols of a note with two top-level sections;
         // the empty query on a library whose most referenced note starts with a paragraph
@@ -1035,8 +1094,9 @@ fn c18(tier: Tier, seed: u64, case: u64) -> CaseReport {
         }
         let mut expect: Vec<(i64, &(String, String, u32, usize))> = all_search
             .iter()
-            // a fresh matcher per entry: a reused SkimMatcherV2 scores the same pair differently depending on its history
-            .map(|p| (SkimMatcherV2::default().fuzzy_match(&p.1, q).unwrap_or(0), p))
+            // a fresh matcher per entry: a reused SkimMatcherV2 scores the same pair differently depending on its history;
+            // an entry that does not match comes after every entry that does (a real match can score zero or less)
+            .map(|p| (SkimMatcherV2::default().fuzzy_match(&p.1, q).unwrap_or(i64::MIN), p))
             .collect();
         if q.is_empty() {
             expect.sort_by(|a, b| b.1 .3.cmp(&a.1 .3).then(a.1 .1.len().cmp(&b.1 .1.len())).then(a.1 .1.cmp(&b.1 .1)).then(a.1 .0.cmp(&b.1 .0)).then(a.1 .2.cmp(&b.1 .2)));
